@@ -371,6 +371,16 @@ func GenSession(rd *core.Rand, dialect string, thorough bool) (*Script, *sessMet
 				ms = append(ms, form[i:][:strings.IndexByte(form[i:], 'z')+1])
 				ss = append(ss, "sq")
 			}
+			if d == "pg" && rd.Chance(35) {
+				// PostgreSQL rejects the statement AT a token that contains ` at or near ` (what ParseQuery cuts the message at)
+				var tms []string
+				stmt, tms = instantiateToken(pgTokenForms[rd.Intn(len(pgTokenForms))], rd)
+				ms, ss = nil, nil
+				for _, m := range tms {
+					ms = append(ms, m)
+					ss = append(ss, "sq")
+				}
+			}
 			kind := "simple"
 			if rd.Chance(40) {
 				if d == "pg" {
